@@ -230,13 +230,15 @@ def _nonull(x):
     return x
 
 
-def pmap(func, items, procs=16):
-    """Run func over items in worker processes (fresh interpreters importing /repo's working tree)."""
+def pmap(func, items, procs=16, fresh=False):
+    """Run func over items in worker processes (fresh interpreters importing /repo's working tree).  fresh=True: one
+    process per item, forked from the parent, so that nothing an earlier item did in the same worker (caches filled by
+    whoever came first) can hide or cause a difference."""
     import multiprocessing as mp
     if not items:
         return []
     ctx = mp.get_context("fork")
-    with ctx.Pool(min(procs, len(items))) as pool:
+    with ctx.Pool(min(procs, len(items)), maxtasksperchild=1 if fresh else None) as pool:
         return pool.map(func, items, chunksize=1)
 
 
